@@ -45,7 +45,7 @@ ASSUMPTIONS = [
     'dialogue harness: the checking thread waits (bounded wall clock, expiry = inconclusive) until its own select() sees the kernel state the peer action '
     'produces, then ticks a bounded number of times; verdicts are on the resulting streams only',
 ]
-REQUIRED = ['iter_select', 'iter_poll', 'iter_epoll', 'reader_ready_emitted', 'writer_ready_emitted', 'registered_not_ready_silent',
+REQUIRED = ['change_inside_select_call', 'inselect_control_event_seen', 'iter_select', 'iter_poll', 'iter_epoll', 'reader_ready_emitted', 'writer_ready_emitted', 'registered_not_ready_silent',
             'ready_not_registered_silent', 'remove_one_role_other_stays', 'readd_after_discard', 'owner_changed_after_discard',
             'send_buffer_full_not_writable', 'writable_again_after_drain', 'peer_closed_hup', 'disconnect_instead_of_write', 'half_close_read',
             'peer_reset', 'discard_then_close', 'close_then_discard', 'close_without_discard', 'fd_number_reused',
@@ -1236,12 +1236,123 @@ def evaluate_case(b, case):
         b.fail(case, clause, detail, known=known, dedup=str(detail.get('poller', '')))
 
 
+def inselect_cases(b):
+    """Registration changes that happen while the Select poller is *inside* its select() call (what another thread can do):
+    select.select() asks every registered object for its fileno() while it builds its sets, so a registered trigger object whose
+    fileno() performs the change puts it exactly there, deterministically and in one thread.  A descriptor that was collected
+    before the change is reported ready by the kernel although it is no longer registered: no event may be emitted for it
+    ("iff it is currently registered"; "discarded or closed descriptors produce no further events even when their number is reused")."""
+    import os
+    import socket as _socket
+    import threading
+
+    from circuits import BaseComponent, handler
+    from circuits.core.events import generate_events
+    from circuits.core.pollers import Select
+
+    class Trigger:
+        def __init__(self, fd):
+            self.fd, self.hook, self.armed = fd, None, False
+
+        def fileno(self):
+            if self.armed:
+                self.armed = False
+                self.hook()
+            return self.fd
+
+    for scenario in ('discard-reader', 'remove-reader', 'remove-writer', 'discard-writer', 'discard-close-reuse'):
+        seen = []
+
+        class Obs(BaseComponent):
+            @handler('_read', '_write', '_disconnect', '_error', channel='*', priority=10)
+            def _on(self, event, *args):
+                seen.append((event.name, args[0] if args else None))
+
+        root = Obs()
+        poller = Select().register(root)
+        src = BaseComponent(channel='owner').register(root)
+        while len(root):
+            root.flush()
+        a, peer = _socket.socketpair()
+        other, other_peer = _socket.socketpair()
+        idle_r, idle_w = os.pipe()
+        a.setblocking(False)
+        trig = Trigger(idle_r)
+        victim_fd = a.fileno()
+        if scenario in ('remove-writer', 'discard-writer'):
+            poller.addWriter(src, a)          # writable at once
+            poller.addWriter(src, trig)       # a pipe read end is never "writable"
+        else:
+            peer.send(b'x')                   # readable
+            poller.addReader(src, a)
+            poller.addReader(src, trig)       # idle pipe: never readable
+        other_peer.send(b'y')
+
+        def hook(scenario=scenario):
+            if scenario == 'discard-reader' or scenario == 'discard-writer':
+                poller.discard(a)
+            elif scenario == 'remove-reader':
+                poller.removeReader(a)
+            elif scenario == 'remove-writer':
+                poller.removeWriter(a)
+            else:
+                poller.discard(a)
+                a.close()
+                os.dup2(other.fileno(), victim_fd)   # the number now belongs to an unrelated readable descriptor
+        trig.hook = hook
+        # control iteration: while registered the descriptor IS reported
+        root.fire(generate_events(threading.RLock(), 0), '*')
+        while len(root):
+            root.flush()
+        control = [x for x in seen if x[1] is a]
+        del seen[:]
+        trig.armed = True
+        root.fire(generate_events(threading.RLock(), 0), '*')
+        while len(root):
+            root.flush()
+        case = {'family': 'inselect', 'scenario': scenario}
+        b.case(case, nontrivial=True)
+        b.reached('change_inside_select_call')
+        if control:
+            b.reached('inselect_control_event_seen')
+        stale = [(n, 'victim') for n, o in seen if o is a]
+        if trig.armed:
+            b.inconclusive_because('the trigger object was never asked for its fileno(): Select no longer passes its lists to select()?')
+        elif stale:
+            b.fail(case, 'NO_EVENT_AFTER_DISCARD' if 'discard' in scenario else 'SILENT_WHEN_NOT_DUE',
+                   {'scenario': scenario, 'events_for_the_descriptor_after_the_change': stale,
+                    'note': 'registration changed while select() was collecting its sets'}, dedup='inselect')
+        else:
+            b.ok('NO_EVENT_AFTER_DISCARD' if 'discard' in scenario else 'SILENT_WHEN_NOT_DUE')
+        for fd in (idle_r, idle_w):
+            try:
+                os.close(fd)
+            except OSError:
+                pass
+        if scenario == 'discard-close-reuse':
+            try:
+                os.close(victim_fd)
+            except OSError:
+                pass
+        for so in (a, peer, other, other_peer):
+            try:
+                so.close()
+            except OSError:
+                pass
+        for fd in (poller._ctrl_recv, poller._ctrl_send):
+            try:
+                os.close(fd)
+            except OSError:
+                pass
+
+
 def run_batch(spec):
     import circuits  # noqa: F401
     b = Batch(PROPERTY)
     if spec['kind'] == 'corpus':
         for case in corpus():
             evaluate_case(b, case)
+        inselect_cases(b)
     elif spec['kind'] == 'random':
         rng = random.Random(spec['seed'])
         for _ in range(spec['n']):
